@@ -316,6 +316,9 @@ func TestVerifRendezvousReplay(t *testing.T) {
 		}
 		tr.EmitBlock(vfRdvRun(sc, c, u))
 	}
+	if n := vfEnvInt("VERIF_PURE_N", 0); n > 0 {
+		tr.EmitBlock(vfRdvPure(n))
+	}
 	t.Logf("VERIF-DONE rendezvous scripts=%d groups=%d", len(scripts), groups)
 }
 
@@ -346,8 +349,15 @@ func TestVerifRendezvousPure(t *testing.T) {
 	tr := vfOpenTrace(t)
 	defer tr.Close()
 	n := vfEnvInt("VERIF_PURE_N", 2000)
+	tr.EmitBlock(vfRdvPure(n))
+	t.Logf("VERIF-DONE rendezvous pure n=%d", n)
+}
+
+const vfPureBlockID = -1000000
+
+func vfRdvPure(n int) []map[string]any {
 	rnd := vfRand(4242)
-	out := []map[string]any{{"ev": "reset", "id": 0}}
+	out := []map[string]any{{"ev": "reset", "id": vfPureBlockID}}
 	rb := func(k int) []byte { b := make([]byte, k); rnd.Read(b); return b }
 	for i := 0; i < n; i++ {
 		isec := []int64{1, 2, 3, 7, 60, 3600, 86400, 604800, 1 + rnd.Int63n(3000000)}[rnd.Intn(9)]
@@ -402,6 +412,5 @@ func TestVerifRendezvousPure(t *testing.T) {
 			"samet": sameT, "sames": sameS, "eq": string(d1) == string(d2), "det": string(d1) == string(d1b),
 			"len": len(d1), "intact": string(ta) == string(topicA)})
 	}
-	tr.EmitBlock(out)
-	t.Logf("VERIF-DONE rendezvous pure n=%d", n)
+	return out
 }
